@@ -854,13 +854,7 @@ impl Part for IntFloatCmp {
 
 // ------------------------------------------------------------------ entry
 
-pub fn replay(ctx: &mut Ctx, rf: &crate::runner::ReplayFile) -> bool {
-    ctx.replay_one::<IntOps>(rf)
-        || ctx.replay_one::<DyadicOps>(rf)
-        || ctx.replay_one::<IntFloatAgree>(rf)
-        || ctx.replay_one::<GeneralFloats>(rf)
-        || ctx.replay_one::<IntFloatCmp>(rf)
-}
+crate::declare_parts!(IntOps, DyadicOps, IntFloatAgree, GeneralFloats, IntFloatCmp);
 
 pub fn run(ctx: &mut Ctx) {
     ctx.rule = "operands drawn from a boundary pool (0, +-1, 2^31, 2^53, 2^63, 2^64, 2^127, 2^128-1, sqrt boundaries, +-3 around each) and random widths; every representation (literal, i64, u64, i128, u128) that can hold an operand is evaluated and judged against an independent big-integer / scaled-integer oracle. Non-trivial: an operand of >= 64 bits or a negative operand (ints, dyadic floats), an integer of >= 53 bits (comparisons). Distinct by (op, operands).".into();
@@ -868,19 +862,13 @@ pub fn run(ctx: &mut Ctx) {
         "the big-integer oracle (model/bigint.rs) is correct (unit-tested; cross-checked against python3 in the thorough tier)".into(),
         "float checks are exact only on dyadic rationals k*2^-e with |k| < 2^24, e <= 8; general finite floats are checked for range/integrality/approximate identity".into(),
     ];
-    ctx.run_finding_witnesses::<IntOps>();
-    ctx.run_finding_witnesses::<DyadicOps>();
-    ctx.run_regressions::<IntOps>();
-    ctx.run_regressions::<DyadicOps>();
-    ctx.run_regressions::<IntFloatAgree>();
-    ctx.run_regressions::<GeneralFloats>();
-    ctx.run_regressions::<IntFloatCmp>();
+    preamble(ctx);
     let t = ctx.tier;
-    ctx.run_part::<IntOps>(t.pick(40_000, 2_000_000));
-    ctx.run_part::<DyadicOps>(t.pick(40_000, 2_000_000));
-    ctx.run_part::<IntFloatAgree>(t.pick(10_000, 500_000));
-    ctx.run_part::<GeneralFloats>(t.pick(20_000, 1_000_000));
-    ctx.run_part::<IntFloatCmp>(t.pick(20_000, 1_000_000));
+    ctx.run_part::<IntOps>(t.pick(200_000, 4_000_000));
+    ctx.run_part::<DyadicOps>(t.pick(200_000, 4_000_000));
+    ctx.run_part::<IntFloatAgree>(t.pick(50_000, 1_000_000));
+    ctx.run_part::<GeneralFloats>(t.pick(100_000, 2_000_000));
+    ctx.run_part::<IntFloatCmp>(t.pick(100_000, 2_000_000));
     if t == Tier::Thorough {
         python_crosscheck(ctx);
     }
